@@ -105,16 +105,16 @@ type Interp struct {
 	label   string
 	posOf   func(token.Pos) string
 	// observation hooks for contract checks
-	onCall func(cl *Closure, args []Value)
-	onRet  func(cl *Closure, args []Value, res []Value)
-	nilPanics bool
-	stepLimit int // when > 0: exceeding it is reported as non-termination (goPanic)
-	extVars   map[string]Value // package-level variables of other packages (identity, or a model value)
-	builders  map[*Ext]*strings.Builder
-	loopLabel   string // label attached to the loop/switch about to start
-	branchLabel string // label of a labelled break/continue in flight
-	defers    *[]deferred // deferred calls of the function being executed
-	templateData *Obj // the data object the template was executed on (set by the Execute model)
+	onCall       func(cl *Closure, args []Value)
+	onRet        func(cl *Closure, args []Value, res []Value)
+	nilPanics    bool
+	stepLimit    int              // when > 0: exceeding it is reported as non-termination (goPanic)
+	extVars      map[string]Value // package-level variables of other packages (identity, or a model value)
+	builders     map[*Ext]*strings.Builder
+	loopLabel    string      // label attached to the loop/switch about to start
+	branchLabel  string      // label of a labelled break/continue in flight
+	defers       *[]deferred // deferred calls of the function being executed
+	templateData *Obj        // the data object the template was executed on (set by the Execute model)
 }
 
 func (it *Interp) fail(n ast.Node, format string, a ...any) {
